@@ -291,17 +291,18 @@ def parse_es_state(s):
 
 def es_state_close(impl, model_line, k, exact):
     """compare the implementation's state (vectors of Fractions) with a model state line for output component k"""
-    if exact:
-        return es_state_str(*impl, k) == model_line
+    if exact and es_state_str(*impl, k) == model_line:
+        return True
+    tol = 1e-12 if exact else TOL      # dyadic stream: equal unless a double rounded (large sums); never looser than 1e-12
     try:
         mi, mc, mareas, ms = parse_es_state(model_line)
     except Exception:
         return False
     integral, cont, areas, start_new, pops = impl
-    if not (close(integral[k], mi, TOL) and close(cont[k], mc, TOL) and ms == start_new and len(areas) == len(mareas)):
+    if not (close(integral[k], mi, tol) and close(cont[k], mc, tol) and ms == start_new and len(areas) == len(mareas)):
         return False
     for (i, v), (j, w) in zip(areas, mareas):
-        if i != j or (v is None) != (w is None) or (v is not None and not close(v[k], w, TOL)):
+        if i != j or (v is None) != (w is None) or (v is not None and not close(v[k], w, tol)):
             return False
     return True
 
@@ -957,9 +958,8 @@ def replay_on_model(ctx, drv, s, case, variant, exact):
                 impl_s = "I %s C %s" % (frac_str(e["after"][0][k]), frac_str(e["after"][1][k]))
                 try:
                     t = out.split(" ")
-                    good = close(e["after"][0][k], Fraction(t[1])) and close(e["after"][1][k], Fraction(t[3]))
-                    if exact:
-                        good = out == impl_s
+                    tol = 1e-12 if exact else TOL
+                    good = out == impl_s or (close(e["after"][0][k], Fraction(t[1]), tol) and close(e["after"][1][k], Fraction(t[3]), tol))
                 except Exception:
                     good = False
             if not good:
@@ -977,7 +977,8 @@ def case_adaptive(ctx, drv, case, variant):
     outl = fspec["outl"]
     exact = (case["grid"]["name"] in ("Trapezoidal", "GlobalTrapezoidal") and not case["grid"].get("modified") and
              (fspec["kind"] == "table" or all(den in (1, 2, 4, 8) for terms in fspec["terms"] for (num, den), _ in terms)))
-    base_tags = {"strategy": strategy, "grid": case["grid"]["name"], "recalculate_frequently": bool(case.get("recalc"))}
+    base_tags = {"strategy": strategy, "grid": case["grid"]["name"], "recalculate_frequently": bool(case.get("recalc")),
+                 "automatic_extend_split": bool(case.get("automatic"))}
     ok = True
 
     def fail(probe, tags, detail, stop):
@@ -1030,6 +1031,7 @@ def case_adaptive(ctx, drv, case, variant):
                 break
         reported = vec(rep, outl)
         ctx.count("stops_" + strategy)
+        ctx.count("stops_grid_" + grid_label(case["grid"]) + ("_auto" if case.get("automatic") else ""))
         # (a) independent recomputation
         indep, ncomp = independent_adaptive(s, case)
         ctx.count("independent_component_evaluations", ncomp)
@@ -1140,23 +1142,50 @@ def gen_dimadaptive(ctx, thorough):
             "max_points": r.choice([30, 60, 100, 150]) if dim == 2 else r.choice([60, 120, 200])}
 
 
-def gen_adaptive(ctx, thorough, strategy):
+ES_CONFIGS = [   # cycled, so that every family occurs early in every run
+    ({"name": "Trapezoidal", "boundary": True}, False),
+    ({"name": "ClenshawCurtis", "boundary": True}, True),
+    ({"name": "Trapezoidal", "boundary": True}, False),
+    ({"name": "Lagrange", "boundary": True, "p": 2}, True),
+    ({"name": "Trapezoidal", "boundary": True}, True),
+    ({"name": "GaussLegendre", "boundary": True}, True),
+    ({"name": "Trapezoidal", "boundary": True}, False),
+    ({"name": "ClenshawCurtis", "boundary": True}, False),
+    ({"name": "Lagrange", "boundary": True, "p": 3}, True),
+    ({"name": "Lagrange", "boundary": True, "p": 2}, False),
+]
+DW_CONFIGS = [   # nodal global grids that run on the unchanged tree (GlobalSimpsonGrid, the Romberg grids and the modified basis raise)
+    {"name": "GlobalTrapezoidal", "boundary": True},
+    {"name": "GlobalHighOrder", "boundary": True, "max_degree": 3},
+    {"name": "GlobalTrapezoidal", "boundary": True},
+    {"name": "GlobalHighOrder", "boundary": True, "max_degree": 5},
+    {"name": "GlobalTrapezoidal", "boundary": False},
+    {"name": "GlobalTrapezoidal", "boundary": True},
+]
+
+
+def gen_adaptive(ctx, thorough, strategy, index=0):
     r = ctx.rng
-    dim = r.choice([2, 2, 2, 3])
+    if strategy == "extend-split":
+        gs, automatic = ES_CONFIGS[index % len(ES_CONFIGS)]
+    else:
+        gs, automatic = DW_CONFIGS[index % len(DW_CONFIGS)], False
+    costly = gs["name"] in ("Lagrange", "GlobalHighOrder", "ClenshawCurtis", "GaussLegendre") or automatic
+    dim = r.choice([2, 2, 2, 3]) if not costly else r.choice([2, 2, 2, 2, 2, 3])
     a, b = gen_box(r, dim)
     lmax = r.choice([2, 2, 3]) if dim == 2 else 2
     base = (2 ** lmax + 1) ** dim
     stops = sorted({1, r.randint(base // 2, 2 * base), r.randint(2 * base, 4 * base if not thorough else 7 * base)})
-    if r.random() < 0.3:
+    if r.random() < 0.3 or (costly and dim == 3):
         stops = stops[:2]
+    allow_table = gs["name"] in ("Trapezoidal", "GlobalTrapezoidal")     # error estimators of the high-order paths want smooth data
     case = {"kind": "adaptive", "strategy": strategy, "dim": dim, "lmin": 1, "lmax": lmax, "a": a, "b": b,
-            "f": gen_fspec(r, dim, nondyadic=r.random() < 0.15), "stops": stops}
+            "f": gen_fspec(r, dim, allow_table=allow_table, nondyadic=r.random() < 0.15), "stops": stops, "grid": dict(gs)}
     if r.random() < 0.15:
         case["recalc"] = r.choice([1, 2, 3, 5])
     if strategy == "extend-split":
-        case["grid"] = {"name": "Trapezoidal", "boundary": True}
+        case["automatic"] = automatic
     else:
-        case["grid"] = {"name": "GlobalTrapezoidal", "boundary": True}
         case["version"] = r.choice([2, 3, 3, 6, 6])
         case["rebalancing"] = r.random() < 0.7
         case["reference"] = r.random() < 0.6
@@ -1186,8 +1215,9 @@ def run(ctx):
                 "random schemes of 0-4 components with coefficients in {-2..3}, dyadic vector-valued partial results, some components not "
                 "computed on some areas) on the real Integration+RefinementContainer+SpatiallyAdaptivBase around a table-valued stub grid, "
                 "state compared with the model after every operation; macro: StandardCombi (Trapezoidal with/without boundary, "
-                "ClenshawCurtis, GaussLegendre), DimAdaptiveCombi (every stopping iteration), dimension-wise (GlobalTrapezoidalGrid, versions "
-                "2/3/6, with/without rebalancing and reference) and extend-split (version 0, TrapezoidalGrid) in dim 2-3, lmin 1, lmax 2-3, "
+                "ClenshawCurtis, GaussLegendre), DimAdaptiveCombi (every stopping iteration), dimension-wise (GlobalTrapezoidalGrid with/without boundary, GlobalHighOrderGrid "
+                "max_degree 3/5, default grid_surplusses, versions 2/3/6, with/without rebalancing and reference) and extend-split (version 0; "
+                "Trapezoidal, ClenshawCurtis, GaussLegendre, Lagrange p=2/3; with and without automatic_extend_split) in dim 2-3, lmin 1, lmax 2-3, "
                 "polynomial (dyadic and non-dyadic coefficients) or table-backed integrands with 1-3 outputs, 2-3 stops per run "
                 "(first fresh, later via continue_adaptive_refinement) plus fresh runs with/without reevaluate_at_end; 15% of the adaptive "
                 "cases with recalculate_frequently (refinements_for_recalculate 1-5); "
@@ -1226,7 +1256,7 @@ def run(ctx):
                 elif fam == "dim-adaptive":
                     case = gen_dimadaptive(ctx, thorough)
                 else:
-                    case = gen_adaptive(ctx, thorough, fam)
+                    case = gen_adaptive(ctx, thorough, fam, counters[fam] - 1)
                 try:
                     ok = run_case(ctx, drv, case, variant)
                 except Exception:
